@@ -120,8 +120,8 @@ Fixpoint glencoe_parse_tree (fuel : nat) (finfo_ : aval) (here : path) (parent :
       match jget "id" node with Err e => Err e | Ok fid =>
       match finfo_get finfo_ fid "type" with Err e => Err e | Ok tyv =>
       match finfo_get finfo_ fid "name" with Err e => Err e | Ok nmv =>
-      match jstr tyv with Err e => Err e | Ok fty =>
-      match jstr nmv with Err e => Err e | Ok fname =>
+      match jstr tyv with Err _ => Err FlamaException | Ok fty =>      (* fix: a type that is no string is no known type *)
+      match jstr nmv with Err _ => Err FlamaException | Ok fname =>    (* fix: a name is a string *)
       let info := mk_info fname in
       let is_plain := String.eqb fty "FEATURE" in
       (* fix: an unknown feature type is a library error (it used to re-add the last relation made, or to
@@ -212,7 +212,7 @@ Fixpoint glencoe_parse_ctc (fuel : nat) (finfo_ : aval) (info : aval) : result n
         if String.eqb ty "FeatureTerm" then
           match nth_operand ops 0 with Err e => Err e | Ok x =>
           match finfo_get finfo_ x "name" with Err e => Err e | Ok nv =>
-          match jstr nv with Err e => Err e | Ok nm => Ok (term nm) end end end
+          match jstr nv with Err _ => Err FlamaException | Ok nm => Ok (term nm) end end end   (* fix: a name is a string *)
         else if String.eqb ty "NotTerm" then
           match sub 0%nat with Err e => Err e | Ok a => Ok (un NOT a) end
         else if String.eqb ty "ImpliesTerm" then bin2 IMPLIES
